@@ -212,6 +212,80 @@ theorem holder_releases (s : LSt) (q : Nat) (hinv : LInv s) (hq : s.holder = som
     · rw [hd]; exact hq
     · rw [hd]; simp [lstep, hq, h1]
 
+theorem phase_after_ret (s : St) (p : Nat) (x : Pub) (hf : findPub s p = some x) (hx1 : x.phase = 1) :
+    (findPub (step s (.ret p)) p).map (·.phase) = some 2 := by
+  simp only [step]
+  rw [hf]
+  simp only [hx1, if_true]
+  show ((setPhase s p 2).find? (·.id = p)).map (·.phase) = some 2
+  rw [phaseOf_setPhase]
+  simp only [if_true]
+  unfold findPub at hf
+  rw [hf]; rfl
+
+theorem phaseOf_some (s : LSt) (p n : Nat) (h : phaseOf s p = some n) : ∃ x, findPub s.bus p = some x ∧ x.phase = n := by
+  unfold phaseOf at h
+  cases hf : findPub s.bus p with
+  | none => rw [hf] at h; cases h
+  | some x => rw [hf] at h; exact ⟨x, rfl, by simpa using h⟩
+
+/-- `Publish` never waits for an application handler: from any state in which `muHandle` is free, a new publication
+    runs through all four of its sections — each enabled when its turn comes — and returns, without a single `appRun`
+    event, whatever application handlers of earlier publications are still pending (`s.bus.pending` is arbitrary). -/
+theorem publish_completes_without_appRun (s : LSt) (p : Nat) (hfree : s.holder = none) (hnew : findPub s.bus p = none) :
+    let s1 := lstep s (.snapshot p)
+    let s2 := lstep s1 (.acquire p)
+    let s3 := lstep s2 (.deliver p)
+    let s4 := lstep s3 (.release p)
+    Enabled s (.snapshot p) ∧ Enabled s1 (.acquire p) ∧ Enabled s2 (.deliver p) ∧ Enabled s3 (.release p) ∧
+    phaseOf s4 p = some 2 ∧ s4.holder = none := by
+  intro s1 s2 s3 s4
+  have hst : step s.bus (.snapshot p) = { s.bus with pubs := s.bus.pubs ++ [⟨p, s.bus.handlers, 0⟩] } := by
+    simp only [step]; rw [hnew]; simp
+  have h1f : findPub s1.bus p = some ⟨p, s.bus.handlers, 0⟩ := by
+    have := findPub_append_new s.bus ⟨p, s.bus.handlers, 0⟩ p hnew
+    show findPub (step s.bus (.snapshot p)) p = _
+    rw [hst]
+    show (s.bus.pubs ++ [(⟨p, s.bus.handlers, 0⟩ : Pub)]).find? (fun x : Pub => decide (x.id = p)) = _
+    rw [this]; simp
+  have h1h : s1.holder = none := hfree
+  have h1p : phaseOf s1 p = some 0 := by unfold phaseOf; rw [h1f]; rfl
+  have e2 : s2 = { s1 with holder := some p } := by
+    show lstep s1 (.acquire p) = _
+    simp [lstep, h1h, h1p]
+  have h2h : s2.holder = some p := by rw [e2]
+  have h2f : findPub s2.bus p = some ⟨p, s.bus.handlers, 0⟩ := by rw [e2]; exact h1f
+  have h2p : phaseOf s2 p = some 0 := by unfold phaseOf; rw [h2f]; rfl
+  have e3 : s3 = apply s2 (.handle p) := by
+    show lstep s2 (.deliver p) = _
+    simp [lstep, h2h, h2p]
+  have h3h : s3.holder = some p := by rw [e3]; exact h2h
+  have h3p : phaseOf s3 p = some 1 := by
+    rw [e3]
+    exact phase_after_handle s2.bus p _ h2f rfl
+  obtain ⟨x3, h3f, hx3⟩ := phaseOf_some s3 p 1 h3p
+  have e4 : s4 = { apply s3 (.ret p) with holder := none } := by
+    show lstep s3 (.release p) = _
+    simp [lstep, h3h, h3p]
+  refine ⟨trivial, h1h, h2h, h3h, ?_, by rw [e4]⟩
+  rw [e4]
+  exact phase_after_ret s3.bus p x3 h3f hx3
+
+/-- the member in which the dispatch section of `Publish` waits until no application handler of an earlier
+    publication is unfinished (a WaitGroup "to keep application handlers in publication order") — NOT the code as
+    written; `Spine/Props/C15Gen.lean` checks that `Publish` contains no blocking call besides its two mutexes -/
+def WEnabled (s : LSt) : LEv → Prop
+  | .deliver p => s.holder = some p ∧ s.bus.pending = []
+  | .subscribe _ => True
+  | .unsubscribe _ => True
+  | .snapshot _ => True
+  | .appRun _ _ => True
+  | .acquire _ => s.holder = none
+  | .release p => s.holder = some p
+
+instance (s : LSt) (e : LEv) : Decidable (WEnabled s e) := by
+  cases e <;> simp only [WEnabled] <;> exact inferInstance
+
 /-! ## The member with a lock hand-over (NOT the code as written)
 
     If `Publish` released `mu` only after `muHandle.Lock()` ("hand-over"), a publisher queued on `muHandle` would hold
